@@ -109,7 +109,12 @@ impl<'a> Reduced<'a> {
 
 impl ReducedWord {
     pub const fn one(ring: &ConstSingleDivisor) -> Self {
-        Self(1 << ring.shift())
+        // in the ring modulo 1 the only element is 0
+        if ring.divisor() == 1 {
+            Self(0)
+        } else {
+            Self(1 << ring.shift())
+        }
     }
 
     #[inline]
